@@ -1,4 +1,169 @@
-From RxVerif Require Import Base.Prelude Ops.Machine Ops.Multi Ops.MultiCase Ops.Sources.
-Example C37_range_example :
-  emitted (fst (run (x_range 2 8 3) [(0, ITick 0%nat); (0, ITick 1%nat); (0, ITick 2%nat)])) = [Next 2; Next 5; Done].
+(* C37 -- source factories emit their specified sequences.
+   Machines (Ops/Sources.v, written from observable/{range,fromiterable,
+   returnvalue,empty,never,throw,generate,generatewithrelativetime,timer,
+   repeat}.py) on the subscription runner Ops/Multi.v.  Each factory hands its
+   work to a scheduler; a machine's inputs are the firings of the timers it
+   scheduled (tag = scheduling order, each with its delay in the trace) and the
+   dispose instant.  [tick_ins 0 nows] fires the timers in scheduling order at
+   the clock readings [nows]; positions in the tagged outputs are firing
+   numbers (1 = first firing; 0 = inside subscribe()).
+   Time: a timer's delay is part of the trace, the firing instants are inputs;
+   "emitted at d" reads "emitted by the firing of the timer scheduled with delay
+   d".  The K2 correspondence fires every timer exactly when due. *)
+From RxVerif Require Import Base.Prelude Ops.Machine Ops.MachineFacts Ops.Multi Ops.MultiFacts Ops.MultiCase
+  Ops.Sources Ops.SourcesFacts.
+
+(* ---- range ---------------------------------------------------------------- *)
+(* Python's range: the closed form by length (CPython's get_len_of_range) IS the
+   loop  x = start; while (x < stop if step > 0 else x > stop): yield x; x += step *)
+Theorem C37_py_range_is_the_python_loop : forall step stop, step <> 0 -> forall fuel start,
+  (Z.to_nat (range_len start stop step) <= fuel)%nat ->
+  range_loop fuel start stop step = py_range start stop step.
+Proof. exact py_range_is_loop. Qed.
+Print Assumptions C37_py_range_is_the_python_loop.
+
+Theorem C37_py_range_elements : forall a b s i, (i < length (py_range a b s))%nat ->
+  nth i (py_range a b s) 0 = a + Z.of_nat i * s.
+Proof. exact py_range_nth. Qed.
+Print Assumptions C37_py_range_elements.
+
+Theorem C37_py_range_bound : forall a b s x, s <> 0 -> In x (py_range a b s) ->
+  if 0 <? s then x < b else b < x.
+Proof. exact py_range_bound. Qed.
+Print Assumptions C37_py_range_bound.
+
+(* for ALL integers start, stop, step (empty ranges, negative steps): firing i
+   emits the i-th element of the Python range, the firing after the last one
+   completes *)
+Theorem C37_range_emits_python_range : forall a b s,
+  let n := Z.to_nat (range_len a b s) in
+  temitted (fst (run (x_range a b s) (tick_ins 0 (zeros (S n)))))
+  = nexts (indexed 1 (py_range a b s)) ++ [(S n, Done)].
+Proof. exact range_spec. Qed.
+Print Assumptions C37_range_emits_python_range.
+
+(* the factory's argument conventions: range(a), range(a, b), range(a, b, s),
+   range(a, None, s) *)
+Theorem C37_range_argument_conventions : forall a b s,
+  x_range_py a None None = x_range 0 a 1 /\ x_range_py a (Some b) None = x_range a b 1
+  /\ x_range_py a (Some b) (Some s) = x_range a b s /\ x_range_py a None (Some s) = x_range a maxsize s.
+Proof. intros; repeat split. Qed.
+Print Assumptions C37_range_argument_conventions.
+
+Example C37_range_negative_step : py_range 7 (-2) (-3) = [7; 4; 1].
+Proof. vm_compute. reflexivity. Qed.
+Example C37_range_empty : py_range 3 3 1 = [] /\ py_range 3 8 (-1) = [].
+Proof. vm_compute. auto. Qed.
+Example C37_range_run :
+  run_canon (x_range 7 (-2) (-3)) (tick_ins 0 (zeros 4))
+  = [(0%nat, OTimer 0%nat 0); (1%nat, OEmit (Next 7)); (1%nat, OTimer 1%nat 0); (2%nat, OEmit (Next 4));
+     (2%nat, OTimer 2%nat 0); (3%nat, OEmit (Next 1)); (3%nat, OTimer 3%nat 0); (4%nat, OEmit Done)].
+Proof. vm_compute. reflexivity. Qed.
+
+(* ---- from_iterable / of ----------------------------------------------------- *)
+Theorem C37_from_iterable_emits_items : forall spy vs tl now,
+  (tl = [] \/ exists e r, tl = Raise e :: r) ->
+  temitted (fst (run (x_from_iterable spy (map Ok vs ++ tl) None) [(now, ITick 0%nat)]))
+  = map (fun v => (1%nat, Next v)) vs ++ [(1%nat, match tl with Raise e :: _ => Err e | _ => Done end)].
+Proof. exact from_iterable_spec. Qed.
+Print Assumptions C37_from_iterable_emits_items.
+
+(* the `disposed` flag between elements *)
+Theorem C37_from_iterable_stops_pulling_when_disposed : forall vs k tl now, (0 < k <= length vs)%nat ->
+  let tr := fst (run (x_from_iterable true (map Ok vs ++ tl) (Some k)) [(now, ITick 0%nat)]) in
+  temitted tr = map (fun v => (1%nat, Next v)) (firstn k vs)
+  /\ flat_map (fun x => match snd x with OEffect n => [n] | _ => [] end) tr
+     = map (fun j => e_pull (Z.of_nat j)) (seq 0 k).
+Proof. exact from_iterable_disposed_flag. Qed.
+Print Assumptions C37_from_iterable_stops_pulling_when_disposed.
+
+(* ---- return_value, empty, never, throw -------------------------------------- *)
+Theorem C37_return_value : forall v now,
+  fst (run (x_return_value v) [(now, ITick 0%nat)])
+  = [(0%nat, OTimer 0%nat 0); (1%nat, OEmit (Next v)); (1%nat, OEmit Done)].
+Proof. exact return_value_spec. Qed.
+Theorem C37_empty : forall now, fst (run x_empty [(now, ITick 0%nat)]) = [(0%nat, OTimer 0%nat 0); (1%nat, OEmit Done)].
+Proof. exact empty_spec. Qed.
+Theorem C37_throw : forall e now,
+  fst (run (x_throw e) [(now, ITick 0%nat)]) = [(0%nat, OTimer 0%nat 0); (1%nat, OEmit (Err e))].
+Proof. exact throw_spec. Qed.
+Theorem C37_never : forall ins, fst (run x_never ins) = [].
+Proof. exact never_spec. Qed.
+Print Assumptions C37_return_value.
+Print Assumptions C37_empty.
+Print Assumptions C37_throw.
+Print Assumptions C37_never.
+
+(* ---- generate ---------------------------------------------------------------- *)
+(* pure condition / iterate, loop exiting within fewer than [fuel] iterations *)
+Theorem C37_generate_emits_while_loop_states : forall (c : Z -> bool) (f : Z -> Z) init fuel,
+  let ws := while_states fuel c f init in
+  (length ws < fuel)%nat ->
+  temitted (fst (run (x_generate init (fun x => Ok (c x)) (fun x => Ok (f x)))
+                     (tick_ins 0 (zeros (S (length ws))))))
+  = nexts (indexed 1 ws) ++ [(S (length ws), Done)].
+Proof. exact generate_spec. Qed.
+Print Assumptions C37_generate_emits_while_loop_states.
+
+(* arbitrary (raising) callbacks, any number of firings: the fuelled loop *)
+Theorem C37_generate_with_raising_callbacks : forall init cond iter n,
+  temitted (fst (run (x_generate init cond iter) (tick_ins 0 (zeros n)))) = gen_ref cond iter n true init 1.
+Proof. exact generate_ref_spec. Qed.
+Print Assumptions C37_generate_with_raising_callbacks.
+
+Example C37_generate_terminating_loop :
+  let c := fun x => x <? 3 in let f := fun x => x + 1 in
+  while_states 10 c f 0 = [0; 1; 2] /\ (length (while_states 10 c f 0) < 10)%nat.
+Proof. vm_compute. split; [reflexivity|lia]. Qed.
+
+(* ---- generate_with_relative_time ---------------------------------------------- *)
+Theorem C37_generate_with_relative_time : forall (c : Z -> bool) (f d : Z -> Z) init fuel nows,
+  let ws := while_states fuel c f init in
+  (length ws < fuel)%nat -> length nows = S (length ws) ->
+  let tr := fst (run (x_gwrt init (fun x => Ok (c x)) (fun x => Ok (f x)) (fun x => Ok (d x))) (tick_ins 0 nows)) in
+  temitted tr = nexts (indexed 2 ws) ++ [(S (length ws), Done)]
+  /\ ttimers tr = (0%nat, (0%nat, 0)) :: map (fun p => (S (fst p), (S (fst p), d (snd p)))) (indexed 0 ws).
+Proof. exact gwrt_spec. Qed.
+Print Assumptions C37_generate_with_relative_time.
+
+(* zero delays are delays like any other (on the unpatched tree `assert time`
+   raised AssertionError into the scheduler here) *)
+Example C37_gwrt_zero_delay :
+  run_canon (x_gwrt 0 (fun x => Ok (x <? 2)) (fun x => Ok (x + 1)) (fun _ => Ok 0)) (tick_ins 0 (zeros 3))
+  = [(0%nat, OTimer 0%nat 0); (1%nat, OTimer 1%nat 0); (2%nat, OEmit (Next 0)); (2%nat, OTimer 2%nat 0);
+     (3%nat, OEmit (Next 1)); (3%nat, OEmit Done)].
+Proof. vm_compute. reflexivity. Qed.
+
+(* ---- timer ------------------------------------------------------------------- *)
+Theorem C37_timer_emits_zero_at_d : forall d now,
+  fst (run (x_timer d) [(now, ITick 0%nat)])
+  = [(0%nat, OTimer 0%nat (Z.max d 0)); (1%nat, OEmit (Next 0)); (1%nat, OEmit Done)].
+Proof. exact timer_spec. Qed.
+Print Assumptions C37_timer_emits_zero_at_d.
+
+Theorem C37_timer_periodic : forall p nows,
+  let tr := fst (run (x_timer_periodic p) (tick_ins 0 nows)) in
+  temitted tr = nexts (indexed 1 (map Z.of_nat (seq 0 (length nows))))
+  /\ ttimers tr = (0%nat, (0%nat, Z.max p 0)) :: map (fun j => (S j, (S j, Z.max p 0))) (seq 0 (length nows)).
+Proof. exact timer_periodic_spec. Qed.
+Print Assumptions C37_timer_periodic.
+
+Theorem C37_timer_with_period : forall d p n, 0 <= d -> 0 < p ->
+  let nows := map (fun j => d + Z.of_nat j * p) (seq 0 n) in
+  let tr := fst (run (x_timer_period d p) (tick_ins 0 nows)) in
+  temitted tr = nexts (indexed 1 (map Z.of_nat (seq 0 n)))
+  /\ ttimers tr = (0%nat, (0%nat, d)) :: map (fun j => (S j, (S j, p))) (seq 0 n).
+Proof. exact timer_period_spec. Qed.
+Print Assumptions C37_timer_with_period.
+
+(* ---- repeat_value ------------------------------------------------------------- *)
+Theorem C37_repeat_value_emits_v_n_times : forall v c, 0 <= c ->
+  let n := Z.to_nat c in
+  temitted (fst (run (x_repeat_value v (Some c)) (tick_ins 0 (zeros (S (2 * n))))))
+  = map (fun j => ((2 * j + 2)%nat, Next v)) (seq 0 n) ++ [(S (2 * n), Done)].
+Proof. exact repeat_value_spec. Qed.
+Print Assumptions C37_repeat_value_emits_v_n_times.
+
+Example C37_repeat_value_3 :
+  emitted (fst (run (x_repeat_value 7 (Some 3)) (tick_ins 0 (zeros 7)))) = [Next 7; Next 7; Next 7; Done].
 Proof. vm_compute. reflexivity. Qed.
